@@ -26,6 +26,39 @@ ASSUMPTIONS = [
 ]
 
 
+# C18 re-uses the kernel runs with "no feasible exception path" as the claim
+TOTALITY = {'on': False}
+
+
+def _raise_path(rec, e, p, kernel, cexs_raise):
+  if not TOTALITY['on']:
+    return
+  r, m = e.feasible()
+  if r == 'sat':
+    cexs_raise.append((kernel, repr(p.value), inputs_of(e, m)))
+  elif r == 'unsat':
+    rec.obligation('proved')
+  else:
+    rec.inconclusive('exception path undecided: %r' % (p.value,))
+
+
+def _report_raises(rec, kernel, cexs_raise, call):
+  """call(**inputs) runs the real kernel; confirmed if it raises."""
+  for kern, exc, cex in cexs_raise[:3]:
+    try:
+      call(**cex)
+      bad = False
+    except Exception as ex:  # pylint: disable=broad-except
+      bad = True
+      exc = repr(ex)
+    rec.replayed()
+    rec.violation(kernel, 'raises', 'kernel raised %s' % exc, cex,
+                  dict(module='harness.props.c18', function='replay_kernel',
+                       args=dict(kernel=kernel,
+                                 inputs={k: str(v) for k, v in cex.items()})),
+                  bad)
+
+
 def _mods():
   common.lib()
   from paranoid_crypto.lib import rsa_util, ntheory_util, special_case_factoring  # pylint: disable=g-import-not-at-top
@@ -71,8 +104,10 @@ def _havoc_cf(maxlen):
       more = e.fresh('cf_more', 'bool')
       if not e.decide(more):
         break
-      out.append((SInt(e.fresh('cf_q')), SInt(e.fresh('cf_r')),
-                  SInt(e.fresh('cf_t'))))
+      tr = (e.fresh('cf_q'), e.fresh('cf_r'), e.fresh('cf_t'))
+      # convergents of non-negative a, b are non-negative
+      e.assume(z3.And(tr[0] >= 0, tr[1] >= 0, tr[2] >= 0))
+      out.append(tuple(SInt(t) for t in tr))
     return out
 
   return cf
@@ -130,6 +165,7 @@ def fermat_soundness(rec, seed, K, lo_bits=63):
   rec.functions('paranoid_crypto.lib.rsa_util:FermatFactor')
   rec.bounds('n >= 2^%d, unbounded Int; max_steps = %d' % (lo_bits, K))
   cexs = []
+  cexs_raise = []
   reach = {}
 
   def run(e):
@@ -145,7 +181,8 @@ def fermat_soundness(rec, seed, K, lo_bits=63):
         rec.inconclusive('path aborted: %s' % p.value)
         continue
       if p.kind == 'raise':
-        # exceptions are C18's subject; here: must be really reachable to count
+        # exceptions are C18's subject (TOTALITY mode)
+        _raise_path(rec, e, p, 'rsa_util.FermatFactor', cexs_raise)
         continue
       if p.value is None:
         cls = 'none'
@@ -162,6 +199,8 @@ def fermat_soundness(rec, seed, K, lo_bits=63):
           rec.sample(dict(kernel='FermatFactor', cls=cls,
                           witness=reach[cls], K=K))
   rec.reach(2 if K > 0 else 1, len(reach))
+  _report_raises(rec, 'rsa_util.FermatFactor', cexs_raise,
+                 lambda n: rsa_util.FermatFactor(int(n), K))
   for cex in cexs[:3]:
     n = cex['n']
     res = rsa_util.FermatFactor(n, K)
@@ -189,7 +228,7 @@ def degenerate_moduli():
   import gmpy2  # pylint: disable=g-import-not-at-top
   np_ = lambda x: int(gmpy2.next_prime(x))
   out = []
-  for b in (63, 64, 65, 100, 128):
+  for b in (64, 65, 100, 128):
     p = np_(2**(b // 2) + 12345)
     q = np_(2**(b - b // 2) + 54321)
     out += [('semiprime%d' % b, p * q), ('prime%d' % b, np_(2**b)),
@@ -222,6 +261,7 @@ def _kernel_job(rec, kernel, run, classify, replay_fn, replay_name, patches,
   ok_goal: extra z3 goal that must hold on this path (or None).
   """
   cexs = []
+  cexs_raise = []
   reach = {}
   import contextlib  # pylint: disable=g-import-not-at-top
   with contextlib.ExitStack() as st:
@@ -234,6 +274,7 @@ def _kernel_job(rec, kernel, run, classify, replay_fn, replay_name, patches,
         rec.inconclusive('path aborted: %s' % p.value)
         continue
       if p.kind == 'raise':
+        _raise_path(rec, e, p, kernel, cexs_raise)
         continue
       cls, pair, n, goal = classify(p)
       if pair is not None or goal is not None:
@@ -250,11 +291,14 @@ def _kernel_job(rec, kernel, run, classify, replay_fn, replay_name, patches,
         else:
           cexs.append((cls, inputs_of(e, m)))
       if cls not in reach and cls in expect_classes:
-        r, m = e.feasible()
+        # vacuity twin: the path's decisions and contracts are satisfiable
+        # (total definitions of // and % cannot make them unsatisfiable)
+        r, m, _ = e.check_sat(use_defs=False, timeout_ms=20000)
         if r == 'sat':
           reach[cls] = inputs_of(e, m)
           rec.sample(dict(kernel=kernel, cls=cls, witness=reach[cls]))
   rec.reach(len(expect_classes), len(reach))
+  _report_raises(rec, kernel, cexs_raise, lambda **kw: replay_fn(**kw))
   for cls, cex in cexs[:3]:
     ok = replay_fn(**cex)
     rec.replayed()
@@ -473,6 +517,7 @@ def highlow_soundness(rec, seed, L, middle_bits, width):
   rec.bounds('n of exactly %d bits (every value), middle_bits = %d; '
              'bit-vector width %d with no-overflow side conditions' %
              (L, middle_bits, width))
+  cexs_raise = []
   cexs = []
   reach = {}
 
@@ -490,6 +535,8 @@ def highlow_soundness(rec, seed, L, middle_bits, width):
         rec.inconclusive('path aborted: %s' % p.value)
         continue
       if p.kind == 'raise':
+        _raise_path(rec, e, p, 'rsa_util.FactorHighAndLowBitsEqual',
+                    cexs_raise)
         continue
       if not common.overflow_free(rec, e, 'FactorHighAndLowBitsEqual'):
         continue
@@ -517,6 +564,9 @@ def highlow_soundness(rec, seed, L, middle_bits, width):
           rec.sample(dict(kernel='FactorHighAndLowBitsEqual', cls=cls, L=L,
                           witness=reach[cls]))
   rec.reach(2, len(reach))
+  _report_raises(rec, 'rsa_util.FactorHighAndLowBitsEqual', cexs_raise,
+                 lambda n: rsa_util.FactorHighAndLowBitsEqual(int(n),
+                                                              middle_bits))
   for cex in cexs[:3]:
     bad = replay_highlow(cex['n'], middle_bits)
     rec.replayed()
@@ -544,7 +594,7 @@ def jobs(tier, seed):
     out.append(Job('fermat_K%d' % K, fermat_soundness, dict(K=K),
                    timeout=1200 if thorough else 300, cost=K + 1))
   out.append(Job('cf_loop', cf_soundness,
-                 dict(bits=[64, 65] if not thorough else [64, 65, 66, 67],
+                 dict(bits=[64] if not thorough else [64, 65, 66, 67],
                       cflen=1 if not thorough else 2),
                  timeout=900, cost=10))
   for d0 in ([1, 7] if not thorough else [1, 7, 255, 2**31 - 1]):
